@@ -164,6 +164,11 @@ def process_unit(unit, seed, vacuity=True):
     for d in unit.fns:
         res.obligations.extend(d.obligations)
     res.assumptions = scan_assumptions(lines)
+    # trusted extractor rewrites (rule E14 / E14b / E14c) are assumptions too: list each function they were applied to
+    for d in unit.fns:
+        rules = sorted(set(e["rule"].split()[0] for e in d.vx["edits"] if e["rule"].startswith("E14")))
+        if rules:
+            res.assumptions.append("extractor rule %s applied to %s: collect / chain / flat_map%s replaced by accumulator loops as their rustdoc describes (trusted rewrite, DESIGN section 5)" % ("+".join(rules), d.fq, " / fused map, filter, copied stages" if any(r != "E14" for r in rules) else ""))
     # template lemmas (proof fns) are obligations too
     for l in lines:
         if l.fn is None:
